@@ -54,6 +54,9 @@ type dialCase struct {
 	Ops      string `json:"ops,omitempty"`          // A authorize, D dial, R rotate roots
 	NExtras  int    `json:"n_extra_alpn,omitempty"` // history: every dial passes client state and this many extra protocols
 	DialReps int    `json:"dial_repetitions,omitempty"`
+	// ZeroSkews: the listener's options set both clock skews to zero (an operator with synchronized clocks
+	// who wants requests validated without tolerance)
+	ZeroSkews bool `json:"listener_clock_skews_zero,omitempty"`
 }
 
 // presented records what a rogue server showed on one connection
@@ -549,7 +552,12 @@ func runHistory(c *engine.Ctx, dc dialCase) {
 		s = world.MustServer(world.ServerCfg{Backend: world.Inmem, StorageWrap: dc.NodeWrap})
 	}
 	defer s.Close()
-	lw, err := world.NewLW(s, world.LWCfg{})
+	lcfg := world.LWCfg{}
+	if dc.ZeroSkews {
+		lcfg.Options = s.Opts(nodeenrollment.WithNotBeforeClockSkew(0), nodeenrollment.WithNotAfterClockSkew(0))
+		r.Count("histories_on_a_listener_with_zero_clock_skews", 1)
+	}
+	lw, err := world.NewLW(s, lcfg)
 	if err != nil {
 		r.Broken(err.Error())
 		return
@@ -772,6 +780,9 @@ func runDialAdv(c *engine.Ctx) engine.Result {
 	for _, h := range genHistories(c.Pick(5, 6)) {
 		for _, wk := range []string{"normal", "both", "lapsed"} {
 			cases = append(cases, dialCase{Kind: "history", Ops: h, World: wk, NodeWrap: len(h)%2 == 0})
+		}
+		if len(h) <= c.Pick(4, 5) {
+			cases = append(cases, dialCase{Kind: "history", Ops: h, World: "normal", ZeroSkews: true})
 		}
 		// both chains valid: dials that carry client state and 1..3 extra protocols, repeated (the order in
 		// which the node tries its chains is not deterministic)
